@@ -169,6 +169,18 @@ def hand_cases():
     H.append(h("J:0:1111100000 J:1:0000011000 U:0 U:1 A:31 X:0 P:1:0 P:1:0 P:1:0 P:1:0 A:31 P:1:0 A:31"))
     H.append(h("J:0:1010101010 J:1:0101010101 U:0 U:1 A:31 X:0 A:31 P:1:0 P:1:0 P:1:0 A:31 P:1:0 P:1:0"))
     H.append(h("J:0:1111100000 J:1:0000011000 U:0 U:1 A:31 K:0 A:8 P:1:0 P:1:0 P:1:0 P:1:0 A:31 P:1:0 U:0 A:31 Q:0"))
+    # a block half received while request rounds run (stall_prolonged after >= 3 keep-alive ticks; endgame HAVE / tick):
+    # the connection's own in-progress transfer must keep Block::insert from handing the block to it again
+    H.append(h("J:0:1111111111 U:0 PB:0:0 A:125 A:125 A:125 A:125 PE:0 Q:0"))
+    H.append(h("J:0:1111111111 U:0 P:0:0 PB:0:0 A:250 A:250 PE:0 A:31 Q:0"))
+    H.append(h("J:0:110 U:0 PB:0:0 H:0:2 A:125 PE:0 Q:0", small))
+    H.append(h("J:0:111 J:1:111 U:0 U:1 PB:0:0 A:125 P:1:0 A:125 PE:0 Q:1", small))
+    # wanted range starting at a piece index that is not a multiple of 8, the pieces before it switched off
+    H.append(h("W:0:0 W:1:0 W:2:0 W:3:0 J:0:%s U:0 Q:0" % ("1" * npieces(*many)), many))
+    H.append(h("W:0:0 W:1:0 W:2:0 W:3:0 W:4:0 J:0:%s J:1:%s U:0 U:1 P:0:0 P:1:0 A:31 Q:1" % ("1" * npieces(*many), "01" * (npieces(*many) // 2)), many))
+    # a piece started by a leecher whose requests are voided (leaves / chokes); only seeders remain
+    H.append(h("J:0:1111100000 U:0 P:0:0 X:0 J:1:1111111111 U:1 A:31 Q:1"))
+    H.append(h("J:0:1111100000 J:1:1111111111 U:0 U:1 P:0:0 K:0 A:8 A:31 Q:1"))
     # four peers
     H.append(h("J:0:1111100000 J:1:0000011111 J:2:1111111111 J:3:- U:0 U:1 U:2 U:3 P:0:0 P:1:0 P:2:0 K:2 P:0:0 X:1 A:8 U:2 H:3:2 A:31 Q:2"))
     return H
@@ -273,6 +285,7 @@ def oracle(case, out):
     out_req = {}                 # peer -> set of (i,o) outstanding on the wire
     timed_out = {}               # peer -> blocks the client dropped by its unordered timer (no CANCEL sent)
     last_snap_u = {}
+    mid = {}                     # peer -> block whose PIECE message is half received
 
     def psize(i):
         return total - i * plen if i == n - 1 else plen
@@ -288,13 +301,13 @@ def oracle(case, out):
             timed_out[p] = set()
             last_snap_u[p] = []
         elif t == "X":
-            for d in (have, interested, unchoked, out_req, timed_out, last_snap_u):
+            for d in (have, interested, unchoked, out_req, timed_out, last_snap_u, mid):
                 d.pop(e[1], None)
         elif t == "H":
             have[e[1]][int(e[2])] = True
         elif t == "K":
             unchoked[e[1]] = False
-            out_req[e[1]] = set()      # a choke voids every request on the wire
+            out_req[e[1]] = set([mid[e[1]]]) if e[1] in mid else set()      # a choke voids every request on the wire
             timed_out[e[1]] = set()
         elif t == "U":
             unchoked[e[1]] = True
@@ -302,9 +315,17 @@ def oracle(case, out):
             interested[e[1]] = True
         elif t == "N":
             interested[e[1]] = False
-        elif t in ("P", "PB"):
+        elif t == "P":
             out_req[e[1]].discard((int(e[2]), int(e[3])))
             timed_out[e[1]].discard((int(e[2]), int(e[3])))
+        elif t == "PB":
+            # the answer has begun but the block is still outstanding on this connection until its last byte (PE)
+            mid[e[1]] = (int(e[2]), int(e[3]))
+        elif t == "PE":
+            if e[1] in mid:
+                b = mid.pop(e[1])
+                out_req.get(e[1], set()).discard(b)
+                timed_out.get(e[1], set()).discard(b)
         elif t == "C":
             out_req[e[1]].discard((int(e[2]), int(e[3])))
         elif t == "F":
@@ -346,6 +367,8 @@ def oracle(case, out):
                 if (i, o) in timed_out[p]:
                     v.append(("unordered-timeout-rerequest", where + ": second REQUEST for a block still outstanding at this peer "
                               "(the client dropped the first one by its 60 s unordered timer without sending CANCEL)"))
+                elif mid.get(p) == (i, o):
+                    v.append(("duplicate-request", where + ": block is being received on this very connection (PIECE half transferred)"))
                 else:
                     v.append(("duplicate-request", where + ": block already outstanding on this connection"))
             out_req[p].add((i, o))
